@@ -590,7 +590,9 @@ func c16DiffClass(as []c16Action) (class string, inScope bool) {
 	case nt == 1 && na == 0 && as[len(as)-1].typ == 't':
 		return "swaps-then-trim", true
 	}
-	return "exotic(trim-mixed-with-append-or-repeated)", false
+	// every valid list is in scope: C16.c16_diff_complete_general / c16_diff_sound_general cover
+	// appends, swaps and trims in any order and number (rhp/v2 write batches)
+	return "mixed(append/swap/trim-any-order)", true
 }
 
 func (t *c16task) diffCase(roots []c16H, as []c16Action, cseed int64, modelSample int) {
